@@ -495,15 +495,15 @@ pub fn judge_sig(rec: &mut Recorder, c: &SigCase, ex: Exec, _hello: &Value) -> R
         }
         _ => {
             let want = match c.mutation {
-                Mutation::NullReplacement | Mutation::NullTarget => "Pointer must not be null",
-                _ => "Signature mismatch",
+                Mutation::NullReplacement | Mutation::NullTarget => "null",
+                _ => "mismatch",
             };
             match &o.panic {
                 None => {
                     return rec.fail(&sig(&format!("different-pair-accepted/{mname}")), format!("structurally different pair accepted: target {:?} vs replacement {:?} (mutation {:?})", o.sig_a, o.sig_b, c.mutation));
                 }
-                Some(p) if !p.contains(want) => {
-                    return rec.fail(&sig("refusal-without-proper-message"), format!("refusal of {:?} vs {:?} panicked with {p:?}, expected a message containing {want:?}", o.sig_a, o.sig_b));
+                Some(p) if !p.to_lowercase().contains(want) => {
+                    return rec.fail(&sig("refusal-without-proper-message"), format!("refusal of {:?} vs {:?} panicked with {p:?}, expected a signature-mismatch / null-pointer message (containing {want:?}, case-insensitive)", o.sig_a, o.sig_b));
                 }
                 _ => {}
             }
